@@ -23,6 +23,16 @@ func init() { register("C03", runC03) }
 type p8 struct{ A, B int8 }
 
 func runC03(c *core.Ctx) {
+	if c.Index%100 == 17 {
+		// big sets: hundreds of members (bulk constructors, long dirty maps)
+		n := c.R.Range(300, 1500)
+		u := make([]int, n)
+		for i := range u {
+			u[i] = i*3 + 1
+		}
+		setCase(c, "int-huge", u, func(a, b int) bool { return a < b }, func(v int) string { return fmt.Sprint(v) })
+		return
+	}
 	switch c.R.Intn(4) {
 	case 3: // larger universes: bigger dirty maps, promotion thresholds, many deleted entries
 		n := c.R.Range(12, 40)
@@ -193,6 +203,9 @@ func setCase[T comparable](c *core.Ctx, tname string, univ []T, less func(a, b T
 		switch r.Intn(5) {
 		case 0:
 			k := r.Intn(10)
+			if len(univ) > 100 {
+				k = r.Range(len(univ)/2, 2*len(univ))
+			}
 			sl := make([]T, k)
 			for i := range sl {
 				sl[i] = univ[r.Intn(len(univ))]
@@ -237,7 +250,11 @@ func setCase[T comparable](c *core.Ctx, tname string, univ []T, less func(a, b T
 		if !check(o, "constructor") {
 			return nil
 		}
-		n := r.Intn(40 + 3*len(univ))
+		nmax := 40 + 3*len(univ)
+		if nmax > 160 {
+			nmax = 160
+		}
+		n := r.Intn(nmax)
 		for i := 0; i < n; i++ {
 			v := univ[r.Intn(len(univ))]
 			switch r.Pick(10, 8, 6, 3, 2) {
